@@ -11,6 +11,7 @@ import (
 	"fmt"
 	"go/token"
 	"go/types"
+	"strconv"
 
 	"golang.org/x/tools/go/ssa"
 )
@@ -98,8 +99,28 @@ func (s *scheduler) pick(cands []*gor, preferCur bool) *gor {
 	if len(cands) == 1 {
 		return cands[0]
 	}
-	if s.explore {
-		return cands[ex.choice(len(cands))]
+	if s.explore && schedBudgetLeft() {
+		// the default (no deviation) is the goroutine the deterministic scheduler would take
+		def := 0
+		if preferCur {
+			for k, g := range cands {
+				if g == s.cur {
+					def = k
+				}
+			}
+		}
+		c := ex.choice(len(cands))
+		// choice 0 is the default; the others are deviations, counted against the optional bound
+		idx := c
+		if c == 0 {
+			idx = def
+		} else if c <= def {
+			idx = c - 1
+		}
+		if idx != def {
+			ex.schedDeviations++
+		}
+		return cands[idx]
 	}
 	if preferCur {
 		for _, g := range cands {
@@ -555,4 +576,15 @@ func init() {
 	externals["(*time.Ticker).Reset"] = func(fr *frame, args []value) value { return nil }
 	externals["(*time.Timer).Stop"] = func(fr *frame, args []value) value { return false }
 	externals["(*time.Timer).Reset"] = func(fr *frame, args []value) value { return false }
+}
+
+// schedBudgetLeft: with run parameter sched_bound=k the explorer follows the deterministic
+// scheduler once k scheduling decisions of a path have deviated from it (context bounding).
+func schedBudgetLeft() bool {
+	b, ok := ex.params["sched_bound"]
+	if !ok {
+		return true
+	}
+	n, err := strconv.Atoi(b)
+	return err != nil || ex.schedDeviations < n
 }
